@@ -966,16 +966,52 @@ def dynamicRequested (attr : Toks) (item : Item) : Bool :=
    | .impl _ => (match parseImplAttr attr with | .ok a => a.dynRef | .error _ => false)
    | _ => false)
 
+def DelegShape.isStatic : DelegShape → Bool
+  | .bySelf => true
+  | .staticTarget _ => true
+  | _ => false
+
+/-- the body of a statically dispatched delegating method is exactly one direct call, optionally
+    awaited: `f(self, a, ..)`, `Self::f(__impl, a, ..)`, `self.as_ref().m(a, ..)` or
+    `<EntraitT::Target as I<EntraitT>>::m(self, a, ..)` — nothing is boxed, coerced or allocated -/
+def staticBodyOk (attr : Toks) (item : Item) (m : GenMember) : Bool :=
+  match m with
+  | .fn _ sig (some b) =>
+      (match item with
+       | .trait t =>
+           (match parseTraitAttr attr with
+            | .ok a =>
+                (expectedShape a t.containsAsync).isStatic &&
+                (b == specDelegBody (expectedShape a t.containsAsync) sig.ident (paramIdents sig.inputs) true ||
+                 b == specDelegBody (expectedShape a t.containsAsync) sig.ident (paramIdents sig.inputs) false)
+            | .error _ => false)
+       | _ => (parseCall b).isSome)
+  | _ => true
+
+/-- the only bounds the macro writes on its own type parameter -/
+def macroBoundOk (b : Toks) : Bool := b == syncToks || b == sendToks || b == staticToks
+
+/-- the macro's own type parameter comes first and carries only the fixed bounds -/
+def macroHeadOk (ps : List GParam) : Bool :=
+  match ps.head? with
+  | some (.ty _ "EntraitT" bs _ _) => bs.all macroBoundOk
+  | _ => false
+
+/-- a single fn with a concrete dependency: the impl is for the user's own type, with the user's generics -/
+def concreteFn : Item → Bool
+  | .fn f => f.sig.depIsConcrete
+  | _ => false
+
+def implStaticOk (attr : Toks) (item : Item) (im : GenImpl) : Bool :=
+  im.members.all (staticBodyOk attr item) &&
+  (concreteFn item ||
+    (macroHeadOk im.params &&
+      (im.selfTy == [i entraitT] || im.selfTy == implPathToks ||
+        (match item with | .impl m => im.selfTy == m.selfTy | _ => false))))
+
 def P_C14 (attr : Toks) (item : Item) (view : View) : Bool :=
   if dynamicRequested attr item then true
-  else
-    let bad := ["dyn", "Box"]
-    (implsOf view.items).all (fun im =>
-      im.members.all (fun m => match m with | .fn _ _ (some b) => !mentions bad b | _ => true) &&
-      (match im.params.head? with | some (.ty _ "EntraitT" bs _ _) => bs.all (fun b => !mentions bad b) | _ => true) &&
-      !mentions bad im.selfTy || (match item with | .impl _ => true | .fn f => f.sig.depIsConcrete | _ => false)) &&
-    (traitsOf view.items).all (fun t =>
-      t.attrs.all (fun a => !a.mockKind.isSome || !mentions bad a.inner))
+  else (implsOf view.items).all (implStaticOk attr item)
 
 /-! ## C19 — generated code refers to everything through absolute paths -/
 
